@@ -77,6 +77,12 @@ def r02_8(run):
     run.floor('R02.8', 'removal sites', k, 2)
 
 
+def r02_9(run):
+    """every received line - an empty data-block line included - is fed to the line machine exactly once (rule R01.7, shared): a
+    650+ event's payload keeps its blank lines"""
+    borrow(run, c01.r01_7, 'R02.9')
+
+
 def _event_cls(run):
     return run.idx.cls('Event', MOD)
 
@@ -321,6 +327,7 @@ RULES = [
     ('R02.5', 'SETEVENTS argument = names in self.events; table stored/deleted only under the first/last-listener guards and followed by SETEVENTS', r02_5),
     ('R02.7', 'who-may-write: the event/reply line accumulator is written only by the line machine (issuing a command cannot wipe a half-received event)', r02_7),
     ('R02.8', 'listener removal removes the given callback by equality (no identity test on callbacks)', r02_8),
+    ('R02.9', 'framing: every received line reaches the machine once (R01.7 borrowed)', r02_9),
     ('R02.6', 'events dispatched only via self.events[name] under membership guard, only from _handle_notify', r02_6),
 ]
 
